@@ -222,3 +222,48 @@ Proof.
       try (intros C; cbn in C; intuition discriminate).
   - eexists. vm_compute. reflexivity.
 Qed.
+
+(* The hypotheses of the composition are jointly satisfiable (JointInst.v): ONE concrete state space -- byte memory x trace
+   of all other effects, big-endian words, the seven memory nodes concrete, every other opcode strict in its operands
+   and appended to the trace, halting opcodes as observations -- meets SemOk, MemOk and StmtOk at once. *)
+From Verif Require C15.JointInst.
+Theorem composition_hypotheses_satisfiable :
+  SemOk JointInst.JSem /\ inhabited (MergeSound.MemOk JointInst.JSem) /\ StmtOk JointInst.JSem JointInst.jops.
+Proof. exact JointInst.joint_instance. Qed.
+Print Assumptions composition_hypotheses_satisfiable.
+
+(* ... and opt_then_lower_program_sound instantiated with it on the tree of stmt_fragment_nonvacuous: the optimiser rewrites
+   the tree (the if is flipped), the rewritten tree is lowered, and the emitted program, run on the pc machine from
+   the empty stack, realises the meaning of the ORIGINAL tree in that state space, for every initial memory / trace *)
+Definition stmt_example : expr :=
+  Node "seq" [Node "mstore" [Lit 0; Node "add" [Node "sload" [Lit 1]; Lit 2]];
+              Node "if" [Node "lt" [Node "mload" [Lit 0]; Lit 10]; Node "sstore" [Lit 1; Lit 7]; Node "sstore" [Lit 2; Lit 8]];
+              Node "assert" [Node "iszero" [Node "sload" [Lit 2]]]].
+Example composition_instance :
+  exists e' code, OptTree.optimize true stmt_example = Ok e' /\ e' <> stmt_example /\ lower_top e' = Ok code /\
+  exists body, (exists rest, code = (body ++ Op "STOP" :: rest)%list) /\
+    forall st, Reach JointInst.JSem JointInst.jops code (0%nat, [], st) (eval JointInst.JSem stmt_example st)
+                 (fun v st' => (List.length body, (if Nat.eqb (valency e') 1 then [VZ v] else []), st')).
+Proof.
+  let r := eval vm_compute in (OptTree.optimize true stmt_example) in
+  match r with
+  | Ok ?e' =>
+      assert (OPT: OptTree.optimize true stmt_example = Ok e') by (vm_compute; reflexivity);
+      let c := eval vm_compute in (lower_top e') in
+      match c with
+      | Ok ?code =>
+          assert (L: lower_top e' = Ok code) by (vm_compute; reflexivity);
+          exists e', code; split; [exact OPT|]; split; [discriminate|]; split; [exact L|];
+          apply (opt_then_lower_program_sound JointInst.JSem JointInst.jops JointInst.JSemOk JointInst.JMemOk JointInst.JStmtOk
+                   true stmt_example e' code); [| exact OPT | | exact L]
+      end
+  end.
+  - cbn. unfold lit_ok, MINS, MAXU, HALF, W. repeat split; lia.
+  - cbn. repeat split; try reflexivity; try (left; reflexivity); try (right; reflexivity); try (cbn; lia);
+      try (intros C; cbn in C; intuition discriminate).
+Qed.
+(* the meaning itself, from the empty memory and trace: the effects in order (latest first), no halt *)
+Example composition_instance_outcome :
+  exists m, eval JointInst.JSem stmt_example ([], []) =
+            Norm 0 (m, [("SLOAD", [2]); ("SSTORE", [1; 7]); ("SLOAD", [1])]%string).
+Proof. eexists. vm_compute. reflexivity. Qed.
